@@ -103,6 +103,10 @@ type c19Case struct {
 	// Sp: how the path handed to the code is spelled: "" clean absolute; "rel" ./relative to the
 	// working directory; "dslash" dir//file; "dotmid" dir/./file; "dirdot" (logx modes) Path ends in "/."
 	Sp string `json:"sp,omitempty"`
+	// Ln: symbolic links in the path: "file" the log file is a link to an existing file in another
+	// directory (holding PreCur, possibly empty); "dangling" the link's target does not exist at
+	// first open; "chain" link -> link -> file; "dir" the log directory is a link to a directory.
+	Ln string `json:"ln,omitempty"`
 	// Rot: logx modes, daily rule: the Rotation string handed to Config ("", "daily", anything unknown)
 	Rot      string   `json:"rot,omitempty"`
 	PreCur   []int    `json:"precur,omitempty"`
@@ -576,8 +580,29 @@ func c19Run(c c19Case, root string, r *c19Result) {
 		failf("setup: %v", err)
 		return
 	}
+	lnDir := filepath.Join(root, "zz-link-targets")
+	if c.Ln != "" && !c.Subdir {
+		if err := os.MkdirAll(lnDir, 0o755); err != nil {
+			failf("setup: %v", err)
+			return
+		}
+		if c.Ln != "dir" || e.dir != root {
+			r.classes["symlink-"+c.Ln] = true
+		}
+	}
 	if !c.Subdir {
-		if err := os.MkdirAll(e.dir, 0o755); err != nil {
+		var err error
+		if c.Ln == "dir" && e.dir != root {
+			real := filepath.Join(lnDir, "real-log-dir")
+			if err = os.MkdirAll(real, 0o755); err == nil {
+				if err = os.MkdirAll(filepath.Dir(e.dir), 0o755); err == nil {
+					err = os.Symlink(real, e.dir)
+				}
+			}
+		} else {
+			err = os.MkdirAll(e.dir, 0o755)
+		}
+		if err != nil {
 			failf("setup: %v", err)
 			return
 		}
@@ -666,14 +691,41 @@ func c19Run(c c19Case, root string, r *c19Result) {
 				}
 			}
 		}
-		if len(c.PreCur) > 0 {
+		linked := c.Ln == "file" || c.Ln == "dangling" || c.Ln == "chain"
+		if len(c.PreCur) > 0 && c.Ln != "dangling" {
 			var b []byte
 			for _, n := range c.PreCur {
 				b = append(b, oldRec(oldID(0), n)...)
 			}
-			write(e.logs[0].base, b)
-			delete(pre, e.logs[0].base) // the current file grows; judged through the record rules
+			if linked {
+				// the data left by the earlier run sits in the link's target
+				if err := os.WriteFile(filepath.Join(lnDir, "target.log"), b, 0o600); err != nil {
+					failf("setup: %v", err)
+				}
+			} else {
+				write(e.logs[0].base, b)
+				delete(pre, e.logs[0].base) // the current file grows; judged through the record rules
+			}
 			r.classes["restart-append"] = true
+		} else if linked && c.Ln != "dangling" {
+			if err := os.WriteFile(filepath.Join(lnDir, "target.log"), nil, 0o600); err != nil {
+				failf("setup: %v", err)
+			}
+		}
+		if linked {
+			// the log path is a symbolic link into another directory (writes follow it; a rotation
+			// renames the link, after which the path is an ordinary file again)
+			to := filepath.Join(lnDir, "target.log")
+			if c.Ln == "chain" {
+				mid := filepath.Join(lnDir, "second-link")
+				if err := os.Symlink(to, mid); err != nil {
+					failf("setup: %v", err)
+				}
+				to = mid
+			}
+			if err := os.Symlink(to, e.logs[0].path); err != nil {
+				failf("setup: %v", err)
+			}
 		}
 	}
 	sib := map[string][]byte{} // path -> content of the files in the sibling directory
@@ -1655,6 +1707,9 @@ func c19GenWith(rt *rapid.T, logx bool) c19Case {
 	npre := rapid.IntRange(0, 7).Draw(rt, "npre")
 	if npre == 0 && rapid.IntRange(0, 3).Draw(rt, "subdir") == 0 {
 		c.Subdir = true
+	}
+	if d := rapid.IntRange(0, 99).Draw(rt, "symlink"); d >= 50 && d < 68 && !c.Subdir {
+		c.Ln = rapid.SampledFrom([]string{"file", "file", "dangling", "chain", "dir"}).Draw(rt, "ln")
 	}
 	for i := 0; i < npre; i++ {
 		p := c19Pre{Age: rapid.IntRange(1, 10).Draw(rt, "age")}
